@@ -10,6 +10,7 @@ mkdir -p $CACHE /tmp/w/ev /tmp/w/rp
 IDS=${@:-$(ls seeded)}
 for id in $IDS; do
   p=$(python3 -c "import json;print(json.load(open('seeded/$id/meta.json'))['caught_by'].replace(',',' ').split()[0])")
+  case "$p" in C[0-9][0-9]) ;; *) p=$(python3 -c "import json;print(json.load(open('seeded/$id/meta.json'))['property'])"); echo "$id: recorded as not reported; running its own property's check $p";; esac
   git -C $WT apply /verif/seeded/$id/patch.diff 2>/dev/null || { echo "$id: patch does not apply on HEAD"; continue; }
   CXXVC_REPO=$WT CXXVC_CACHE=$CACHE CXXVC_EVIDENCE_DIR=/tmp/w/ev CXXVC_REPLAY_DIR=/tmp/w/rp ./check $p > /tmp/w/reg_$id.log 2>&1; rc=$?
   git -C $WT checkout -q -- .
